@@ -87,6 +87,7 @@ func (i *interpreter) runMain(fn *ssa.Function) {
 	i.pendingAbort = nil
 	i.shadows = nil
 	i.mutexes = nil
+	i.atomics = nil
 	call(i, nil, token.NoPos, fn, nil)
 	// the harness returned: remaining threads are abandoned (like process exit)
 	i.killThreads()
